@@ -179,6 +179,8 @@ uint64_t api_call(const Op &op, const Vals &v_in, const Prefill &pf, bool &ok) {
         uint32_t thr = (uint32_t)op.u("threshold", 95);
         varintPFORMeta meta;
         memset(&meta, 0, sizeof meta);
+        // for the encoder the metadata is an output: it arrives holding whatever the context left
+        if (k == "pfor.encode") pf.apply(&meta, sizeof meta, 7);
         Buf dst(64 + n * 28 + 4096, k == "pfor.encode" ? pf : Prefill(), 1);
         size_t w = varintPFOREncode(dst.p, in, (uint32_t)n, thr, &meta);
         d.u64(w);
@@ -510,6 +512,10 @@ class Residue : public Engine {
         }
         if (op.kind.rfind("pfor.", 0) == 0) {
             op.set("threshold", r.chance(1, 2) ? 95 : (r.chance(1, 2) ? 90 : 99));
+            if (r.chance(1, 6)) { // percentiles outside the named constants, including the ends
+                static const uint64_t odd[] = {0, 1, 50, 100};
+                op.set("threshold", r.pick(odd));
+            }
             if (r.chance(1, 2)) cls = ARR_CLUSTERED;
         }
         if (op.kind == "for.decode") op.set("batch", r.below(2));
